@@ -15,6 +15,11 @@ def gen_range(t, size, chunk):
     nums = [0, 0, 1, 2, max(0, size - 1), size, size + 1, max(0, chunk - 1), chunk, chunk + 1, 2 * chunk, size // 2, size * 2 + 3, 10 ** 12,
             2 ** 31, 2 ** 63 - 1, 2 ** 63, 10 ** 19, 10 ** 20, 10 ** 25 + 7]     # positions beyond every machine word: still numbers
     nspec = 1 + t.draw(5) if t.draw(3) else 1
+    if size >= 60 and t.draw(25) == 0:
+        # many small disjoint ranges (more than any "reasonable" cap): still exactly what was asked for
+        k = 17 + t.draw(6)
+        step = max(3, size // (k + 1))
+        return "bytes=" + ",".join("%d-%d" % (i * step, i * step) for i in range(k)), "valid"
     inside = size > 0 and t.draw(2) == 0     # keep every spec inside the file: the set stays satisfiable
     if inside:
         nums = [n for n in nums if n < size]
